@@ -7,6 +7,7 @@ import TantivyModel.Proofs.CursorSeek
 import TantivyModel.Proofs.Positions
 import TantivyModel.Proofs.TermInfoStore
 import TantivyModel.Proofs.BitPacker4x
+import TantivyModel.Proofs.BlockCursor
 /-!
 # C07 — The inverted index records exactly the terms, documents, frequencies, positions
 
@@ -171,6 +172,28 @@ theorem C07_positions_addressing_concrete (perDoc : List (List Nat)) (i : Nat) (
       (((perDoc.take i).map List.length).sum) (perDoc.getD i []).length = some (perDoc.getD i []) :=
   C07_positions_addressing cfg (by decide) (by decide) C07_bp4x_good perDoc i hi
 
+/-! ### recycled block cursor -/
+
+/-- **reset ≡ fresh open.** For every prior state `p` of a block cursor (any term read before,
+moved by any advances / seeks, drained or not), `reset(doc_freq, bytes)` yields — up to the
+frequency buffers — exactly the cursor `open(doc_freq, bytes)` yields, and so does every block
+read afterwards; in particular the skip reader is re-initialised like `SkipReader::new`
+(`last_doc_in_previous_block = 0`).  The extracted field lists of `SkipReader::new` / `reset` and
+`BlockSegmentPostings::reset` must show no field left out (the Lean `reset` mirrors the code only
+then). -/
+theorem C07_reset_equiv_open (c : Cfg) (o req : RecOpt) (p : BlockPostings) (docFreq : Nat)
+    (bytes : List Nat)
+    (hskip : p.skip.skipInfo = effectiveOpt c o docFreq (splitSkips c docFreq bytes).1)
+    (hfreq : p.freqOpt = freqOptOf (effectiveOpt c o docFreq (splitSkips c docFreq bytes).1) req) :
+    (p.reset c docFreq bytes).eraseTf = (BlockPostings.open c o req docFreq bytes).eraseTf ∧
+    (∀ fuel, (BlockPostings.drain c fuel (p.reset c docFreq bytes)).1 =
+      (BlockPostings.drain c fuel (BlockPostings.open c o req docFreq bytes)).1) ∧
+    (∀ (s : SkipReader) data, s.reset c data docFreq = SkipReader.new c data docFreq s.skipInfo) := by
+  have _tie : Gen.Postings.SKIPREADER_RESET_MISSING = 0 ∧ Gen.Postings.BLOCKPOSTINGS_RESET_MISSING = 0 := by
+    decide
+  have h := reset_eq_open c o req p docFreq bytes hskip hfreq
+  exact ⟨h, fun fuel => drain_docs_congr c fuel _ _ h, fun s data => SkipReader.reset_eq_new c s data docFreq⟩
+
 /-! ### TermInfoStore -/
 
 /-- **TermInfoStore round trip.** For every list of TermInfos whose ranges are ordered, below `2^56`
@@ -273,6 +296,10 @@ example : run cfg .positions (Cursor.init (chunkBlocks cfg .positions 0 [0, 3, 4
 example : (5 : Nat) < Gen.Postings.BITWIDTH_LIMIT ∧ encodeBitwidth 5 true = 69 := by decide
 example : (invert [[[⟨[97], 0, 1⟩, ⟨[98], 1, 1⟩], [⟨[97], 0, 1⟩]], [], [[⟨[98], 0, 1⟩]]]).terms =
     [([97], [⟨0, 2, [0, 3]⟩]), ([98], [⟨0, 1, [1]⟩, ⟨2, 1, [0]⟩])] := by decide
+example : ((BlockPostings.open cfg .basic .basic 3 [129, 132, 132]).advance cfg).skip.skipInfo =
+    effectiveOpt cfg .basic 2 (splitSkips cfg 2 [130, 133]).1 ∧
+    ((BlockPostings.open cfg .basic .basic 3 [129, 132, 132]).reset cfg 2 [130, 133]).docs = [2, 7] := by
+  decide
 example : 0 < TermInfoStore.BLOCK_LEN ∧ TermInfoStore.BLOCK_LEN = 256 := by decide
 theorem C07_terminfo_example_good :
     TermInfoStore.GoodStore 2 [⟨512, 51, 57, 110, 134⟩, ⟨3, 57, 60, 134, 134⟩, ⟨9, 70, 100, 140, 150⟩] := by
